@@ -325,9 +325,19 @@ func (t *rt) grown() (big bool) {
 		if st, ok := v.(goja.String); ok && st.Length() > 1<<12 {
 			return true
 		}
-		if ob, ok := v.(*goja.Object); ok && ob.ClassName() == "Array" {
-			if l := ob.Get("length"); l != nil && l.ToInteger() > 1<<12 {
-				return true
+		if ob, ok := v.(*goja.Object); ok {
+			if ob.ClassName() == "Array" {
+				if l := ob.Get("length"); l != nil && l.ToInteger() > 1<<12 {
+					return true
+				}
+			}
+			// string-valued data properties / elements of the prelude objects (o.p, a[0..2]) can be doubled too
+			for _, k := range []string{"p", "0", "1", "2"} {
+				if pv := ob.Get(k); pv != nil {
+					if st, ok := pv.(goja.String); ok && st.Length() > 1<<12 {
+						return true
+					}
+				}
 			}
 		}
 	}
